@@ -702,6 +702,44 @@ func ruleCloseAlways(w *World, r *Run, a *updAnalysis, rule string) {
 	}
 }
 
+// NO-NESTED-STORAGE (resource nesting): while the write operation is open, Update acquires no other storage handle.
+// With the production single-connection SQLite pool the open transaction holds the only connection, so a nested
+// ReadOps/WriteOps/Logs blocks forever and wedges the whole witness.
+func ruleNoNestedStorage(w *World, r *Run, a *updAnalysis, rule string) {
+	if !a.guard(r, rule) {
+		return
+	}
+	n := 0
+	for _, v := range a.paths {
+		if v.writeOps == nil || !okBefore(v.s, *v.writeOps, 0) {
+			continue
+		}
+		n++
+		bad := false
+		for _, ev := range v.s.Events {
+			if ev.Kind != "call" || ev.Seq <= v.writeOps.Seq || ev.AtExit {
+				continue
+			}
+			switch ev.Callee {
+			case cReadOps, cWriteOps, cLogs, cInit:
+				bad = true
+				r.Fail(rule, a.key(v, "nested storage access while the write operation is open"), w.pos(ev.Pos), short(ev.Callee)+" is called while Update's own write operation (transaction) is still open: on a single-connection store this blocks forever and every later request hangs behind it")
+			case cGetLatest, cSet, cClose:
+				if ev.Recv != v.handle {
+					bad = true
+					r.Fail(rule, a.key(v, "second handle used while the write operation is open"), w.pos(ev.Pos), short(ev.Callee)+" on a handle other than the open write operation")
+				}
+			}
+		}
+		if !bad {
+			r.Pass(rule, a.key(v, "no nested storage access while the write operation is open"), w.pos(v.writeOps.Pos), "")
+		}
+	}
+	if n == 0 {
+		r.Undecided(rule, fnUpdate, "", "no path opens a write operation")
+	}
+}
+
 func ruleErrNotDropped(w *World, r *Run, a *updAnalysis, rule string) {
 	if !a.guard(r, rule) {
 		return
